@@ -1078,14 +1078,16 @@ theorem Book.wake_core {s : St} (h : Book n maxConc cfg s) :
     rw [if_neg ho.2.2.2]
     exact ⟨ho.1, ho.2.1, ho.2.2.1, fun hq => by cases hq⟩
 
-/-- What `wake` does. -/
+/-- What `wake` (the main thread reading the flags) does. -/
 theorem wake_spec {s s' : St} (hs : wake s = some s') :
-    s.evt = true ∧ s.out = none ∧ s.n ≤ s.submitted ∧
-    s' = { s with status := fun x => if x ∈ s.queue then .suspended else s.status x, queue := [],
-                  out := some (if s.fatal then .fatal else match s.suspendExc with
-                    | some k => .suspend k
-                    | none => .result ((List.range s.n).map
-                        (fun x => if x ∈ s.queue then .suspended else s.status x))) } := by
+    s.evt = true ∧ s.out = none ∧ s.n ≤ s.submitted ∧ s.returning = false ∧
+    ((s.fatal = true ∧
+        s' = { s with status := fun x => if x ∈ s.queue then .suspended else s.status x, queue := [],
+                      out := some .fatal }) ∨
+     (s.fatal = false ∧ ∃ k, s.suspendExc = some k ∧
+        s' = { s with status := fun x => if x ∈ s.queue then .suspended else s.status x, queue := [],
+                      out := some (.suspend k) }) ∨
+     (s.fatal = false ∧ s.suspendExc = none ∧ s' = { s with returning := true })) := by
   unfold Par.wake at hs
   split at hs
   · cases hs
@@ -1096,21 +1098,51 @@ theorem wake_spec {s s' : St} (hs : wake s = some s') :
       split at hs
       · cases hs
       · rename_i ho
-        have he : s.evt = true := by simpa using he
-        have ho : s.out = none := by simpa using ho
-        refine ⟨he, ho, Nat.le_of_not_lt hsub, ?_⟩
-        simp only at hs
         split at hs
-        · rename_i hf
-          cases hs
-          simp [hf]
-        · rename_i hf
-          have hf : s.fatal = false := by simpa using hf
-          split at hs <;> cases hs <;> simp_all
+        · cases hs
+        · rename_i hret
+          have he : s.evt = true := by simpa using he
+          have ho : s.out = none := by simpa using ho
+          have hret : s.returning = false := by simpa using hret
+          refine ⟨he, ho, Nat.le_of_not_lt hsub, hret, ?_⟩
+          cases hf : s.fatal
+          · cases hk : s.suspendExc
+            · right; right
+              simp [hf, hk] at hs
+              exact ⟨rfl, rfl, hs.symm⟩
+            · right; left
+              simp [hf, hk] at hs
+              exact ⟨rfl, _, rfl, hs.symm⟩
+          · left
+            simp [hf] at hs
+            exact ⟨rfl, hs.symm⟩
+
+/-- What `snapshot` (the main thread building the result) does. -/
+theorem snapshot_spec {s s' : St} (hs : snapshot s = some s') :
+    s.returning = true ∧ s.out = none ∧
+    s' = { s with status := fun x => if x ∈ s.queue then .suspended else s.status x, queue := [],
+                  out := some (.result ((List.range s.n).map
+                    (fun x => if x ∈ s.queue then .suspended else s.status x))) } := by
+  unfold Par.snapshot at hs
+  split at hs
+  · cases hs
+  · rename_i hret
+    split at hs
+    · cases hs
+    · rename_i ho
+      cases hs
+      exact ⟨by simpa using hret, by simpa using ho, rfl⟩
 
 theorem Book.wake {s s' : St} (h : Book n maxConc cfg s)
     (hs : wake s = some s') : Book n maxConc cfg s' := by
-  rcases wake_spec hs with ⟨_, _, _, rfl⟩
+  rcases wake_spec hs with ⟨_, _, _, _, ⟨_, rfl⟩ | ⟨_, k, _, rfl⟩ | ⟨_, _, rfl⟩⟩
+  · exact h.wake_core.congr rfl rfl rfl rfl rfl rfl rfl rfl rfl rfl rfl rfl rfl
+  · exact h.wake_core.congr rfl rfl rfl rfl rfl rfl rfl rfl rfl rfl rfl rfl rfl
+  · exact h.congr rfl rfl rfl rfl rfl rfl rfl rfl rfl rfl rfl rfl rfl
+
+theorem Book.snapshot {s s' : St} (h : Book n maxConc cfg s)
+    (hs : snapshot s = some s') : Book n maxConc cfg s' := by
+  rcases snapshot_spec hs with ⟨_, _, rfl⟩
   exact h.wake_core.congr rfl rfl rfl rfl rfl rfl rfl rfl rfl rfl rfl rfl rfl
 
 /-- What `cancel` does. -/
@@ -1334,6 +1366,7 @@ theorem Book.step {s s' : St} {a : Act} (h : Book n maxConc cfg s)
   | tick d => exact h.tick hs
   | cancel i => exact h.cancel hs
   | wake => exact h.wake hs
+  | snapshot => exact h.snapshot hs
 
 
 /-! ## the full invariant -/
@@ -1376,6 +1409,13 @@ structure Inv (n maxConc : Nat) (cfg : Policy.Cfg) (s : St) : Prop extends Book 
   susp_sub : s.suspendExc.isSome = true → s.submitted = n
   /-- the main thread returns only after it has submitted everything -/
   out_sub : s.out.isSome = true → s.submitted = n
+  /-- once the main thread has read the flags and found neither set, the policy is decided and stays
+  so, and no suspend decision is taken any more (a fatal flag may still be set — too late) -/
+  ret_inv : s.returning = true → s.evt = true ∧ s.submitted = n ∧ s.suspendExc = none ∧
+    Policy.shouldComplete cfg s.succ s.fail n = true
+  /-- a result is only built on that path, and nothing else is -/
+  out_ret : ∀ items, s.out = some (.result items) → s.returning = true
+  ret_out : s.returning = true → ∀ o, s.out = some o → ∃ items, o = .result items
 
 theorem sc_init_false (hn : 0 < n) : Policy.shouldComplete cfg 0 0 n = false := by
   cases h : Policy.shouldComplete cfg 0 0 n
@@ -1410,6 +1450,9 @@ theorem Inv.init : Inv n maxConc cfg (init n maxConc cfg) where
   out_susp := by simp [Par.init]
   susp_sub := by simp [Par.init]
   out_sub := by simp [Par.init]
+  ret_inv := by simp [Par.init]
+  out_ret := by simp [Par.init]
+  ret_out := by simp [Par.init]
   out_evt := by simp [Par.init]
 
 
@@ -1455,6 +1498,9 @@ theorem Inv.begin_ {s s' : St} {i : Nat} (h : Inv n maxConc cfg s) (hs : begin_ 
     out_susp := h.out_susp
     susp_sub := h.susp_sub
     out_sub := h.out_sub
+    ret_inv := h.ret_inv
+    out_ret := h.out_ret
+    ret_out := h.ret_out
     out_evt := fun ho => by
       have := (h.out_evt ho).2
       rw [hq] at this; cases this }
@@ -1480,6 +1526,9 @@ theorem Inv.tick {s s' : St} {d : Nat} (h : Inv n maxConc cfg s) (hs : tick s d 
     out_susp := h.out_susp
     susp_sub := h.susp_sub
     out_sub := h.out_sub
+    ret_inv := h.ret_inv
+    out_ret := h.out_ret
+    ret_out := h.ret_out
     out_evt := h.out_evt }
 
 theorem Inv.timerFire {s s' : St} {i : Nat} (h : Inv n maxConc cfg s)
@@ -1527,6 +1576,9 @@ theorem Inv.timerFire {s s' : St} {i : Nat} (h : Inv n maxConc cfg s)
     out_susp := h.out_susp
     susp_sub := h.susp_sub
     out_sub := h.out_sub
+    ret_inv := h.ret_inv
+    out_ret := h.out_ret
+    ret_out := h.ret_out
     out_evt := h.out_evt }
 
 theorem Inv.resubmit {s s' : St} {i : Nat} {ok : Bool} (h : Inv n maxConc cfg s)
@@ -1566,6 +1618,9 @@ theorem Inv.resubmit {s s' : St} {i : Nat} {ok : Bool} (h : Inv n maxConc cfg s)
       out_susp := fun k ho => by simp [hout] at ho
       susp_sub := fun hk => (hns hk).elim
       out_sub := fun ho => by simp [hout] at ho
+      ret_inv := h.ret_inv
+      out_ret := h.out_ret
+      ret_out := h.ret_out
       out_evt := fun ho => by simp [hout] at ho }
   · exact {
       toBook := hB
@@ -1587,6 +1642,9 @@ theorem Inv.resubmit {s s' : St} {i : Nat} {ok : Bool} (h : Inv n maxConc cfg s)
       out_susp := h.out_susp
       susp_sub := h.susp_sub
       out_sub := h.out_sub
+      ret_inv := h.ret_inv
+      out_ret := h.out_ret
+      ret_out := h.ret_out
       out_evt := h.out_evt }
   · exact {
       toBook := hB
@@ -1603,6 +1661,9 @@ theorem Inv.resubmit {s s' : St} {i : Nat} {ok : Bool} (h : Inv n maxConc cfg s)
       out_susp := h.out_susp
       susp_sub := h.susp_sub
       out_sub := h.out_sub
+      ret_inv := fun hr => ⟨rfl, (h.ret_inv hr).2⟩
+      out_ret := h.out_ret
+      ret_out := h.ret_out
       out_evt := fun ho => ⟨rfl, (h.out_evt ho).2⟩ }
 
 theorem getElem?_range_map {α : Type} (f : Nat → α) (n i : Nat) :
@@ -1611,10 +1672,19 @@ theorem getElem?_range_map {α : Type} (f : Nat → α) (n i : Nat) :
   · simp [h]
   · simp [h]
 
-theorem Inv.wake {s s' : St} (h : Inv n maxConc cfg s) (hs : wake s = some s') :
-    Inv n maxConc cfg s' := by
-  have hB := h.toBook.wake hs
-  rcases wake_spec hs with ⟨hevt, hout, hsubn, rfl⟩
+/-- The main thread leaves: the queue is cleared and the outcome fixed. -/
+theorem Inv.leave {s : St} (h : Inv n maxConc cfg s) (hevt : s.evt = true) (hsubn : s.n ≤ s.submitted)
+    (o : Outcome) (hof : o = .fatal → s.fatal = true)
+    (hos : ∀ k, o = .suspend k → s.suspendExc.isSome = true)
+    (hor : ∀ items, o = .result items → s.returning = true ∧
+      items = (List.range s.n).map (fun x => if x ∈ s.queue then .suspended else s.status x))
+    (hro : s.returning = true → ∃ items, o = .result items) :
+    Inv n maxConc cfg { s with
+      status := fun x => if x ∈ s.queue then .suspended else s.status x, queue := [],
+      out := some o } := by
+  have hB : Book n maxConc cfg { s with
+      status := fun x => if x ∈ s.queue then .suspended else s.status x, queue := [],
+      out := some o } := h.toBook.wake_core.congr rfl rfl rfl rfl rfl rfl rfl rfl rfl rfl rfl rfl rfl
   exact {
     toBook := hB
     fatal_evt := h.fatal_evt
@@ -1642,50 +1712,86 @@ theorem Inv.wake {s s' : St} (h : Inv n maxConc cfg s) (hs : wake s = some s') :
       · rw [if_neg hq]; exact h.indef hk x hx
     out_res := fun items ho => by
       simp only [Option.some.injEq] at ho
-      cases hf : s.fatal
-      · rw [hf] at ho
-        cases hk : s.suspendExc
-        · rw [hk] at ho
-          simp only [Bool.false_eq_true, if_false, Outcome.result.injEq] at ho
-          subst ho
-          have hsc : Policy.shouldComplete cfg s.succ s.fail n = true := by
-            rcases h.evt_sound hevt with h1 | h1 | h1
-            · rw [hf] at h1; cases h1
-            · rw [hk] at h1; cases h1
-            · exact h1
-          refine ⟨by simp [h.hn], ?_, ?_⟩
-          · have e1 := hB.hsucc
-            have e2 := hB.hfail
-            simp only at e1 e2
-            rw [cnt_eq_countP] at e1 e2
-            rw [h.hn, ← e1, ← e2]
-            exact hsc
-          · intro x
-            rw [getElem?_range_map]
-            by_cases hx : x < s.n
-            · simp only [hx, if_true, Option.some.injEq]
-              exact ⟨id, id⟩
-            · simp [hx]
-        · rw [hk] at ho; simp at ho
-      · rw [hf] at ho; simp at ho
+      have hr := hor items ho
+      have hsc := (h.ret_inv hr.1).2.2.2
+      rw [hr.2]
+      refine ⟨by simp [h.hn], ?_, ?_⟩
+      · have e1 := hB.hsucc
+        have e2 := hB.hfail
+        simp only at e1 e2
+        rw [cnt_eq_countP] at e1 e2
+        rw [h.hn, ← e1, ← e2]
+        exact hsc
+      · intro x
+        rw [getElem?_range_map]
+        by_cases hx : x < s.n
+        · simp only [hx, if_true, Option.some.injEq]
+          exact ⟨id, id⟩
+        · simp [hx]
     out_fatal := fun ho => by
       simp only [Option.some.injEq] at ho
-      cases hf : s.fatal
-      · rw [hf] at ho
-        cases hk : s.suspendExc <;> rw [hk] at ho <;> simp at ho
-      · rfl
+      exact hof ho
     out_susp := fun k ho => by
       simp only [Option.some.injEq] at ho
-      cases hf : s.fatal
-      · rw [hf] at ho
-        cases hk : s.suspendExc
-        · rw [hk] at ho; simp at ho
-        · rfl
-      · rw [hf] at ho; simp at ho
+      exact hos k ho
     susp_sub := h.susp_sub
     out_sub := fun _ => Nat.le_antisymm h.sub_le (by rw [← h.hn]; exact hsubn)
+    ret_inv := h.ret_inv
+    out_ret := fun items ho => by
+      simp only [Option.some.injEq] at ho
+      exact (hor items ho).1
+    ret_out := fun hr o' ho => by
+      simp only [Option.some.injEq] at ho
+      rcases hro hr with ⟨items, e⟩
+      exact ⟨items, by rw [← ho, e]⟩
     out_evt := fun _ => ⟨hevt, rfl⟩ }
 
+theorem Inv.wake {s s' : St} (h : Inv n maxConc cfg s) (hs : wake s = some s') :
+    Inv n maxConc cfg s' := by
+  rcases wake_spec hs with ⟨hevt, hout, hsubn, hret, ⟨hf, rfl⟩ | ⟨hf, k, hk, rfl⟩ | ⟨hf, hk, rfl⟩⟩
+  · exact h.leave hevt hsubn .fatal (fun _ => hf) (fun k e => by cases e)
+      (fun items e => by cases e) (fun hr => by rw [hret] at hr; cases hr)
+  · exact h.leave hevt hsubn (.suspend k) (fun e => by cases e) (fun _ _ => by rw [hk]; rfl)
+      (fun items e => by cases e) (fun hr => by rw [hret] at hr; cases hr)
+  · have hsc : Policy.shouldComplete cfg s.succ s.fail n = true := by
+      rcases h.evt_sound hevt with h1 | h1 | h1
+      · rw [hf] at h1; cases h1
+      · rw [hk] at h1; cases h1
+      · exact h1
+    exact {
+      toBook := h.toBook.congr rfl rfl rfl rfl rfl rfl rfl rfl rfl rfl rfl rfl rfl
+      fatal_evt := h.fatal_evt
+      susp_evt := h.susp_evt
+      evt_sound := h.evt_sound
+      pend_evt := h.pend_evt
+      susp_idle := h.susp_idle
+      susp_undecided := h.susp_undecided
+      undecided := fun hn he => by
+        have := h.undecided hn he
+        exact ⟨this.1, (shouldSuspend_congr rfl (fun _ _ => rfl)).trans this.2⟩
+      indef := h.indef
+      out_res := h.out_res
+      out_fatal := h.out_fatal
+      out_susp := h.out_susp
+      susp_sub := h.susp_sub
+      out_sub := h.out_sub
+      ret_inv := fun _ =>
+        ⟨hevt, Nat.le_antisymm h.sub_le (by have := hsubn; rw [h.hn] at this; exact this), hk, hsc⟩
+      out_ret := fun items ho => by
+        have : s.out = some (.result items) := ho
+        exact nomatch (hout.symm.trans this)
+      ret_out := fun _ o ho => by
+        have : s.out = some o := ho
+        exact nomatch (hout.symm.trans this)
+      out_evt := h.out_evt }
+
+theorem Inv.snapshot {s s' : St} (h : Inv n maxConc cfg s) (hs : snapshot s = some s') :
+    Inv n maxConc cfg s' := by
+  rcases snapshot_spec hs with ⟨hret, hout, rfl⟩
+  have hr := h.ret_inv hret
+  exact h.leave hr.1 (by rw [h.hn, hr.2.1]; exact Nat.le_refl _) _
+    (fun e => by cases e) (fun k e => by cases e)
+    (fun items e => by cases e; exact ⟨hret, rfl⟩) (fun _ => ⟨_, rfl⟩)
 
 /-- When `should_execution_suspend` fires in a state satisfying the bookkeeping invariant, no task is
 queued or executing. -/
@@ -1789,6 +1895,7 @@ theorem Inv.finish_core {s : St} (h : Inv n maxConc cfg s) {i : Nat} {f : Fin}
   have e_q : s1.queue = s.queue := by rw [← hs1]
   have e_sub : s1.submitted = s.submitted := by rw [← hs1]
   have e_refr : s1.refreshing = s.refreshing := by rw [← hs1]
+  have e_ret : s1.returning = s.returning := by rw [← hs1]
   rcases decide_cases s1 with ⟨hc, e⟩ | ⟨hc, k, hk, e⟩ | ⟨hc, hk, e⟩
   · rw [e] at hB ⊢
     rw [e_cfg, h.hcfg, e_sc, e_fl, e_n, h.hn] at hc
@@ -1831,6 +1938,26 @@ theorem Inv.finish_core {s : St} (h : Inv n maxConc cfg s) {i : Nat} {f : Fin}
         rw [e_out] at ho'
         show s1.submitted = n
         rw [e_sub]; exact h.out_sub ho'
+      ret_inv := fun hr => by
+        have hr' : s1.returning = true := hr
+        rw [e_ret] at hr'
+        refine ⟨rfl, ?_, ?_, ?_⟩
+        · show s1.submitted = n
+          rw [e_sub]; exact (h.ret_inv hr').2.1
+        · show s1.suspendExc = none
+          rw [e_sx]; exact hnone
+        · show Policy.shouldComplete cfg s1.succ s1.fail n = true
+          rw [e_sc, e_fl]; exact hc
+      out_ret := fun items ho => by
+        have ho' : s1.out = some (.result items) := ho
+        rw [e_out] at ho'
+        show s1.returning = true
+        rw [e_ret]; exact h.out_ret items ho'
+      ret_out := fun hr o ho => by
+        have hr' : s1.returning = true := hr
+        have ho' : s1.out = some o := ho
+        rw [e_ret] at hr'; rw [e_out] at ho'
+        exact h.ret_out hr' o ho'
       out_evt := fun ho => by
         have ho' : s1.out.isSome = true := ho
         rw [e_out] at ho'
@@ -1885,6 +2012,22 @@ theorem Inv.finish_core {s : St} (h : Inv n maxConc cfg s) {i : Nat} {f : Fin}
         rw [e_out] at ho'
         show s1.submitted = n
         rw [e_sub]; exact h.out_sub ho'
+      ret_inv := fun hr => by
+        have hr' : s1.returning = true := hr
+        rw [e_ret] at hr'
+        have h1 := hmono (h.ret_inv hr').2.2.2
+        rw [e_cfg, h.hcfg, e_n, h.hn, e_sc, e_fl] at hc
+        rw [hc] at h1; cases h1
+      out_ret := fun items ho => by
+        have ho' : s1.out = some (.result items) := ho
+        rw [e_out] at ho'
+        show s1.returning = true
+        rw [e_ret]; exact h.out_ret items ho'
+      ret_out := fun hr o ho => by
+        have hr' : s1.returning = true := hr
+        have ho' : s1.out = some o := ho
+        rw [e_ret] at hr'; rw [e_out] at ho'
+        exact h.ret_out hr' o ho'
       out_evt := fun ho => by
         have ho' : s1.out.isSome = true := ho
         rw [e_out] at ho'
@@ -1924,6 +2067,12 @@ theorem Inv.finish_core {s : St} (h : Inv n maxConc cfg s) {i : Nat} {f : Fin}
         rw [e_out] at ho; rw [e_sx]; exact h.out_susp k ho
       susp_sub := by rw [e_sx, hnone]; intro hk; cases hk
       out_sub := by rw [e_out, e_sub]; exact h.out_sub
+      ret_inv := fun hr => by
+        rw [e_ret] at hr
+        have h1 := hmono (h.ret_inv hr).2.2.2
+        rw [hc] at h1; cases h1
+      out_ret := by rw [e_out, e_ret]; exact h.out_ret
+      ret_out := by rw [e_out, e_ret]; exact h.ret_out
       out_evt := fun ho => by
         rw [e_out] at ho
         rw [e_evt, e_q]; exact h.out_evt ho }
@@ -1993,6 +2142,9 @@ theorem Inv.taskEnd {s s' : St} {i : Nat} {f : Fin} (h : Inv n maxConc cfg s)
     out_susp := h.out_susp
     susp_sub := h.susp_sub
     out_sub := h.out_sub
+    ret_inv := h.ret_inv
+    out_ret := h.out_ret
+    ret_out := h.ret_out
     out_evt := h.out_evt }
 
 theorem Inv.finish {s s' : St} {i : Nat} {f : Fin} (h : Inv n maxConc cfg s)
@@ -2023,6 +2175,9 @@ theorem Inv.finish {s s' : St} {i : Nat} {f : Fin} (h : Inv n maxConc cfg s)
       out_susp := h.out_susp
       susp_sub := h.susp_sub
       out_sub := h.out_sub
+      ret_inv := h.ret_inv
+      out_ret := h.out_ret
+      ret_out := h.ret_out
       out_evt := h.out_evt }
   · exact {
       toBook := hB
@@ -2040,6 +2195,9 @@ theorem Inv.finish {s s' : St} {i : Nat} {f : Fin} (h : Inv n maxConc cfg s)
       out_susp := h.out_susp
       susp_sub := h.susp_sub
       out_sub := h.out_sub
+      ret_inv := fun hr => ⟨rfl, (h.ret_inv hr).2⟩
+      out_ret := h.out_ret
+      ret_out := h.ret_out
       out_evt := fun ho => ⟨rfl, (h.out_evt ho).2⟩ }
 
 theorem Inv.cancel {s s' : St} {i : Nat} (h : Inv n maxConc cfg s)
@@ -2072,6 +2230,9 @@ theorem Inv.cancel {s s' : St} {i : Nat} (h : Inv n maxConc cfg s)
     out_susp := fun k ho => by simp [hout] at ho
     susp_sub := h.susp_sub
     out_sub := fun ho => by simp [hout] at ho
+    ret_inv := h.ret_inv
+    out_ret := h.out_ret
+    ret_out := h.ret_out
     out_evt := fun ho => by simp [hout] at ho }
 
 theorem Inv.submit {s s' : St} {i : Nat} (h : Inv n maxConc cfg s)
@@ -2108,6 +2269,9 @@ theorem Inv.submit {s s' : St} {i : Nat} (h : Inv n maxConc cfg s)
     out_susp := fun k ho => (hno (by rw [ho]; rfl)).elim
     susp_sub := fun hk => (hns hk).elim
     out_sub := fun ho => (hno ho).elim
+    ret_inv := fun hr => absurd (h.ret_inv hr).2.1 hne
+    out_ret := fun items ho => (hno (by rw [ho]; rfl)).elim
+    ret_out := fun hr => absurd (h.ret_inv hr).2.1 hne
     out_evt := fun ho => (hno ho).elim }
 
 theorem Inv.step {s s' : St} {a : Act} (h : Inv n maxConc cfg s)
@@ -2122,6 +2286,7 @@ theorem Inv.step {s s' : St} {a : Act} (h : Inv n maxConc cfg s)
   | tick d => exact h.tick hs
   | cancel i => exact h.cancel hs
   | wake => exact h.wake hs
+  | snapshot => exact h.snapshot hs
 
 theorem Inv.of_reach {s : St} (h : Reach n maxConc cfg s) : Inv n maxConc cfg s := by
   induction h with
@@ -2152,7 +2317,7 @@ theorem status_step {s s' : St} {a : Act} (hB : Book n maxConc cfg s) (hs : step
         s'.status x = .pending ∧ s'.refreshing = some x) ∨
     (a = .resubmit x true ∧ s.evt = false ∧ s.refreshing = some x ∧ s.status x = .pending ∧
         s'.status x = .running) ∨
-    ((a = .wake ∨ a = .cancel x) ∧ x ∈ s.queue ∧ s.status x = .running ∧
+    ((a = .wake ∨ a = .snapshot ∨ a = .cancel x) ∧ x ∈ s.queue ∧ s.status x = .running ∧
         s'.status x = .suspended) ∨
     (a = .submit x ∧ x = s.submitted ∧ s.status x = .pending ∧ s'.status x = .running) := by
   cases a with
@@ -2202,13 +2367,24 @@ theorem status_step {s s' : St} {a : Act} (hB : Book n maxConc cfg s) (hs : step
     by_cases hx : x = i
     · subst hx
       right; right; right; right; left
-      exact ⟨Or.inr rfl, hi, hB.run x (Or.inr hi), by simp⟩
+      exact ⟨Or.inr (Or.inr rfl), hi, hB.run x (Or.inr hi), by simp⟩
     · left; simp [hx]
   | wake =>
-    rcases wake_spec hs with ⟨_, _, _, rfl⟩
+    rcases wake_spec hs with ⟨hev, ho, _, _, ⟨_, rfl⟩ | ⟨_, k, _, rfl⟩ | ⟨_, _, rfl⟩⟩
+    · by_cases hx : x ∈ s.queue
+      · right; right; right; right; left
+        exact ⟨Or.inl rfl, hx, hB.run x (Or.inr hx), by simp [hx]⟩
+      · left; simp [hx]
+    · by_cases hx : x ∈ s.queue
+      · right; right; right; right; left
+        exact ⟨Or.inl rfl, hx, hB.run x (Or.inr hx), by simp [hx]⟩
+      · left; simp [hx]
+    · exact Or.inl rfl
+  | snapshot =>
+    rcases snapshot_spec hs with ⟨_, ho, rfl⟩
     by_cases hx : x ∈ s.queue
     · right; right; right; right; left
-      exact ⟨Or.inl rfl, hx, hB.run x (Or.inr hx), by simp [hx]⟩
+      exact ⟨Or.inr (Or.inl rfl), hx, hB.run x (Or.inr hx), by simp [hx]⟩
     · left; simp [hx]
 
 /-- COMPLETED is only ever written by the callback of a task that returned. -/
@@ -2317,7 +2493,14 @@ theorem mono_step {s s' : St} {a : Act} (hB : Book n maxConc cfg s) (hs : step s
     rcases cancel_spec hs with ⟨_, _, _, _, rfl⟩
     exact ⟨id, id, fun _ => id, id⟩
   | wake =>
-    rcases wake_spec hs with ⟨_, ho, _, rfl⟩
+    rcases wake_spec hs with ⟨hev, ho, _, _, ⟨_, rfl⟩ | ⟨_, k, _, rfl⟩ | ⟨_, _, rfl⟩⟩
+    · refine ⟨id, id, fun o h => ?_, id⟩
+      rw [ho] at h; cases h
+    · refine ⟨id, id, fun o h => ?_, id⟩
+      rw [ho] at h; cases h
+    · exact ⟨id, id, fun _ => id, id⟩
+  | snapshot =>
+    rcases snapshot_spec hs with ⟨_, ho, rfl⟩
     refine ⟨id, id, fun o h => ?_, id⟩
     rw [ho] at h; cases h
 
@@ -2379,7 +2562,12 @@ theorem suspend_decision {s s' : St} {a : Act} (hB : Book n maxConc cfg s)
     rcases cancel_spec hs with ⟨_, _, _, _, rfl⟩
     exact absurd rfl hne
   | wake =>
-    rcases wake_spec hs with ⟨_, ho, _, rfl⟩
+    rcases wake_spec hs with ⟨hev, ho, _, _, ⟨_, rfl⟩ | ⟨_, k, _, rfl⟩ | ⟨_, _, rfl⟩⟩
+    · exact absurd rfl hne
+    · exact absurd rfl hne
+    · exact absurd rfl hne
+  | snapshot =>
+    rcases snapshot_spec hs with ⟨_, ho, rfl⟩
     exact absurd rfl hne
 
 /-! ## the completion policy -/
@@ -2422,7 +2610,12 @@ theorem counters_step {s s' : St} {a : Act} (hB : Book n maxConc cfg s) (hs : st
     rcases cancel_spec hs with ⟨_, _, _, _, rfl⟩
     exact Or.inl ⟨rfl, rfl⟩
   | wake =>
-    rcases wake_spec hs with ⟨_, ho, _, rfl⟩
+    rcases wake_spec hs with ⟨hev, ho, _, _, ⟨_, rfl⟩ | ⟨_, k, _, rfl⟩ | ⟨_, _, rfl⟩⟩
+    · exact Or.inl ⟨rfl, rfl⟩
+    · exact Or.inl ⟨rfl, rfl⟩
+    · exact Or.inl ⟨rfl, rfl⟩
+  | snapshot =>
+    rcases snapshot_spec hs with ⟨_, ho, rfl⟩
     exact Or.inl ⟨rfl, rfl⟩
 
 /-- Once the policy is decided it stays decided, and no suspend decision is taken any more. -/
@@ -2509,9 +2702,10 @@ theorem NoOrphan.init : NoOrphan n (init n maxConc cfg) := by
   intro _ i hi hr
   simp [Par.init, hi] at hr
 
-theorem NoOrphan.step {s s' : St} {a : Act} (hB : Book n maxConc cfg s) (h : NoOrphan n s)
+theorem NoOrphan.step {s s' : St} {a : Act} (hI : Inv n maxConc cfg s) (h : NoOrphan n s)
     (ha : ∀ i, a = .finish i .orphan → s.evt = true) (hs : step s a = some s') :
     NoOrphan n s' := by
+  have hB := hI.toBook
   intro he' x hx hr
   have he : s.evt = false := by
     cases hev : s.evt
@@ -2583,13 +2777,17 @@ theorem NoOrphan.step {s s' : St} {a : Act} (hB : Book n maxConc cfg s) (h : NoO
     rcases cancel_spec hs with ⟨hev, _, _, _, _⟩
     rw [he] at hev; cases hev
   | wake =>
-    rcases wake_spec hs with ⟨hev, _, _, _⟩
+    rcases wake_spec hs with ⟨hev, _, _, _, _⟩
     rw [he] at hev; cases hev
+  | snapshot =>
+    rcases snapshot_spec hs with ⟨hret, _, _⟩
+    have := (hI.ret_inv hret).1
+    rw [he] at this; cases this
 
 theorem NoOrphan.of_reachO {s : St} (h : ReachO n maxConc cfg s) : NoOrphan n s := by
   induction h with
   | init => exact NoOrphan.init
-  | step a hr ha hs ih => exact ih.step (Inv.of_reach hr.reach).toBook ha hs
+  | step a hr ha hs ih => exact ih.step (Inv.of_reach hr.reach) ha hs
 
 /-! ## enabledness -/
 
@@ -2606,9 +2804,13 @@ theorem begin_enabled {s : St} {i : Nat} {rest : List Nat} (hq : s.queue = i :: 
     (hw : s.active.length < s.maxWorkers) : (step s (.begin i)).isSome = true := by
   simp [Par.step, Par.begin_, hq, hw]
 
-theorem wake_enabled {s : St} (he : s.evt = true) (ho : s.out = none) (hsub : s.n ≤ s.submitted) :
-    (step s .wake).isSome = true := by
-  simp only [Par.step, Par.wake, he, ho, Nat.not_lt.2 hsub]
+theorem snapshot_enabled {s : St} (hr : s.returning = true) (ho : s.out = none) :
+    (step s .snapshot).isSome = true := by
+  simp [Par.step, Par.snapshot, hr, ho]
+
+theorem wake_enabled {s : St} (he : s.evt = true) (ho : s.out = none) (hsub : s.n ≤ s.submitted)
+    (hret : s.returning = false) : (step s .wake).isSome = true := by
+  simp only [Par.step, Par.wake, he, ho, Nat.not_lt.2 hsub, hret]
   cases s.fatal
   · cases s.suspendExc <;> simp
   · simp
@@ -2639,8 +2841,10 @@ theorem resubmit_false_fatal {s s' : St} {i : Nat} (hB : Book n maxConc cfg s)
 
 theorem wake_fatal {s s' : St} (hf : s.fatal = true) (hs : wake s = some s') :
     s'.out = some .fatal := by
-  rcases wake_spec hs with ⟨_, _, _, rfl⟩
-  simp [hf]
+  rcases wake_spec hs with ⟨_, _, _, _, ⟨_, rfl⟩ | ⟨hf', _⟩ | ⟨hf', _⟩⟩
+  · rfl
+  · rw [hf] at hf'; cases hf'
+  · rw [hf] at hf'; cases hf'
 
 /-! ## traces -/
 
@@ -2722,7 +2926,7 @@ theorem suspended_step {s s' : St} {a : Act} (hB : Book n maxConc cfg s) (hs : s
 
 /-- The main thread's outcome is only written by `wake`. -/
 theorem out_step {s s' : St} {a : Act} (hB : Book n maxConc cfg s) (hs : step s a = some s') :
-    s'.out = s.out ∨ a = .wake := by
+    s'.out = s.out ∨ a = .wake ∨ a = .snapshot := by
   cases a with
   | submit i =>
     rcases submit_spec hs with ⟨_, _, rfl⟩
@@ -2750,7 +2954,8 @@ theorem out_step {s s' : St} {a : Act} (hB : Book n maxConc cfg s) (hs : step s 
   | cancel i =>
     rcases cancel_spec hs with ⟨_, _, _, _, rfl⟩
     exact Or.inl rfl
-  | wake => exact Or.inr rfl
+  | wake => exact Or.inr (Or.inl rfl)
+  | snapshot => exact Or.inr (Or.inr rfl)
 
 theorem cancel_enabled {s : St} {i : Nat} (he : s.evt = true) (ho : s.out = none)
     (hsub : s.n ≤ s.submitted) (hi : i ∈ s.queue) : (step s (.cancel i)).isSome = true := by
@@ -2840,7 +3045,12 @@ theorem queue_step {s s' : St} {a : Act} (hB : Book n maxConc cfg s) (he : s.evt
     rcases cancel_spec hs with ⟨_, _, _, _, rfl⟩
     exact ⟨Nat.le_refl _, fun _ hx => Or.inl (List.mem_of_mem_erase hx), fun _ hx => Or.inl hx⟩
   | wake =>
-    rcases wake_spec hs with ⟨_, _, _, rfl⟩
+    rcases wake_spec hs with ⟨hev, ho, _, _, ⟨_, rfl⟩ | ⟨_, k, _, rfl⟩ | ⟨_, _, rfl⟩⟩
+    · exact ⟨Nat.le_refl _, fun _ hx => (by cases hx), fun _ hx => Or.inl hx⟩
+    · exact ⟨Nat.le_refl _, fun _ hx => (by cases hx), fun _ hx => Or.inl hx⟩
+    · exact ⟨Nat.le_refl _, fun _ hx => Or.inl hx, fun _ hx => Or.inl hx⟩
+  | snapshot =>
+    rcases snapshot_spec hs with ⟨_, ho, rfl⟩
     exact ⟨Nat.le_refl _, fun _ hx => (by cases hx), fun _ hx => Or.inl hx⟩
 
 theorem queue_run {s s' : St} (hR : Reach n maxConc cfg s) (he : s.evt = true) (acts : List Act)
@@ -2911,7 +3121,12 @@ theorem submitted_step {s s' : St} {a : Act} (hB : Book n maxConc cfg s) (hs : s
     rcases cancel_spec hs with ⟨_, _, _, _, rfl⟩
     exact Or.inr ⟨rfl, rfl⟩
   | wake =>
-    rcases wake_spec hs with ⟨_, _, _, rfl⟩
+    rcases wake_spec hs with ⟨hev, ho, _, _, ⟨_, rfl⟩ | ⟨_, k, _, rfl⟩ | ⟨_, _, rfl⟩⟩
+    · exact Or.inr ⟨rfl, rfl⟩
+    · exact Or.inr ⟨rfl, rfl⟩
+    · exact Or.inr ⟨rfl, rfl⟩
+  | snapshot =>
+    rcases snapshot_spec hs with ⟨_, ho, rfl⟩
     exact Or.inr ⟨rfl, rfl⟩
 
 /-- Along any run the initial tasks are submitted in index order, each exactly once. -/
@@ -2985,7 +3200,12 @@ theorem refreshing_step {s s' : St} {a : Act} (hB : Book n maxConc cfg s) (hs : 
     rcases cancel_spec hs with ⟨_, _, _, _, rfl⟩
     exact Or.inl rfl
   | wake =>
-    rcases wake_spec hs with ⟨_, _, _, rfl⟩
+    rcases wake_spec hs with ⟨hev, ho, _, _, ⟨_, rfl⟩ | ⟨_, k, _, rfl⟩ | ⟨_, _, rfl⟩⟩
+    · exact Or.inl rfl
+    · exact Or.inl rfl
+    · exact Or.inl rfl
+  | snapshot =>
+    rcases snapshot_spec hs with ⟨_, ho, rfl⟩
     exact Or.inl rfl
 
 /-- While a refresh is in flight and its `resubmit` has not happened, it stays in flight (and the branch
@@ -3091,7 +3311,12 @@ theorem ended_step {s s' : St} {a : Act} (hB : Book n maxConc cfg s) (hs : step 
     rcases cancel_spec hs with ⟨_, _, _, _, rfl⟩
     exact Or.inr (Or.inr ⟨(by intro e; cases e), (by intro e; cases e), Iff.rfl⟩)
   | wake =>
-    rcases wake_spec hs with ⟨_, _, _, rfl⟩
+    rcases wake_spec hs with ⟨hev, ho, _, _, ⟨_, rfl⟩ | ⟨_, k, _, rfl⟩ | ⟨_, _, rfl⟩⟩
+    · exact Or.inr (Or.inr ⟨(by intro e; cases e), (by intro e; cases e), Iff.rfl⟩)
+    · exact Or.inr (Or.inr ⟨(by intro e; cases e), (by intro e; cases e), Iff.rfl⟩)
+    · exact Or.inr (Or.inr ⟨(by intro e; cases e), (by intro e; cases e), Iff.rfl⟩)
+  | snapshot =>
+    rcases snapshot_spec hs with ⟨_, ho, rfl⟩
     exact Or.inr (Or.inr ⟨(by intro e; cases e), (by intro e; cases e), Iff.rfl⟩)
 
 /-- Along any run: (callbacks of `(i, f)` run) + [callback due at the end] =
